@@ -252,3 +252,70 @@ Definition c_step_fixed (i : nat) (s : fst_) : option fst_ :=
       else Some (mk_f (set_jpc_at i JDone (f_pcs s)) false buf (f_rows s) cnt (f_batch s))
   | _ => None
   end.
+
+(** ** The fixed recorder with ANY number of goroutines, each running any list of
+    InsertData / Flush calls on the full recorder state.  Granularity: t.mu.Lock();
+    BEGIN TRANSACTION (fails inside an open transaction); the buffered writes of the
+    call (the sequential [do_op], invisible to others under the mutex); COMMIT
+    (fails without a transaction); t.mu.Unlock().  A call that does not flush
+    (counter below the batch size, or Flush with nothing buffered) takes the mutex,
+    updates the buffers and releases it without touching the transaction. *)
+Inductive gpc := GIdle | GLocked | GInTxn | GCommit | GUnlock.
+
+Record gst := mk_g {
+  g_ths : list (gpc * list op);    (* per goroutine: program counter, calls still to make (head = current call) *)
+  g_mu : bool;                     (* t.mu *)
+  g_txn : bool;                    (* the connection is inside a transaction *)
+  g_panic : bool;
+  g_rec : rec;                     (* the recorder *)
+  g_lin : list op                  (* ghost: completed calls in the order their effects took place *)
+}.
+
+Fixpoint set_nth {A} (i : nat) (x : A) (l : list A) : list A :=
+  match l, i with
+  | [], _ => []
+  | _ :: r, O => x :: r
+  | y :: r, S j => y :: set_nth j x r
+  end.
+
+Definition will_flush (o : op) (s : rec) : bool :=
+  match o with
+  | OInsert _ _ _ => r_batch s <=? r_count s + 1
+  | OFlush _ => negb (r_count s =? 0)
+  end.
+
+Definition g_panicked (s : gst) : gst := mk_g (g_ths s) (g_mu s) (g_txn s) true (g_rec s) (g_lin s).
+
+Definition g_step (i : nat) (s : gst) : option gst :=
+  if g_panic s then None else
+  match nth_error (g_ths s) i with
+  | Some (GIdle, o :: r) =>
+      if g_mu s then None
+      else Some (mk_g (set_nth i (GLocked, o :: r) (g_ths s)) true (g_txn s) false (g_rec s) (g_lin s))
+  | Some (GLocked, o :: r) =>
+      if will_flush o (g_rec s) then
+        if g_txn s then Some (g_panicked s)          (* cannot start a transaction within a transaction *)
+        else Some (mk_g (set_nth i (GInTxn, o :: r) (g_ths s)) (g_mu s) true false (g_rec s) (g_lin s))
+      else
+        match do_op o (g_rec s) with
+        | Some rc => Some (mk_g (set_nth i (GUnlock, o :: r) (g_ths s)) (g_mu s) (g_txn s) false rc (g_lin s ++ [o]))
+        | None => Some (g_panicked s)
+        end
+  | Some (GInTxn, o :: r) =>
+      match do_op o (g_rec s) with
+      | Some rc => Some (mk_g (set_nth i (GCommit, o :: r) (g_ths s)) (g_mu s) (g_txn s) false rc (g_lin s ++ [o]))
+      | None => Some (g_panicked s)
+      end
+  | Some (GCommit, o :: r) =>
+      if g_txn s
+      then Some (mk_g (set_nth i (GUnlock, o :: r) (g_ths s)) (g_mu s) false false (g_rec s) (g_lin s))
+      else Some (g_panicked s)                       (* cannot commit - no transaction is active *)
+  | Some (GUnlock, o :: r) =>
+      Some (mk_g (set_nth i (GIdle, r) (g_ths s)) false (g_txn s) false (g_rec s) (g_lin s))
+  | _ => None
+  end.
+
+Definition g_init (shapes : list (N * list ftag)) (batch : N) (progs : list (list op)) : gst :=
+  mk_g (map (fun p => (GIdle, p)) progs) false false false (rec_init shapes batch) [].
+
+Definition g_all_done (s : gst) : Prop := Forall (fun th => th = (GIdle, [])) (g_ths s).
